@@ -129,10 +129,7 @@ def main(tier, seed, replay=None):
             continue
         for b in serde_oracle(dp)[:1]:
             nb += 1
-            if "HashMap<String," in b and "serde-usage-misses-map-values" in kf:
-                known_hits.add("serde-usage-misses-map-values")
-            else:
-                viol.append(({"file": dp["file"]}, "serde bound not closed: " + b))
+            viol.append(({"file": dp["file"]}, "serde bound not closed: " + b))
     for (c, rc, txt) in gen_fail:
         # a generator failure writes nothing: not a C01 violation by itself (C12 covers crashes)
         pass
@@ -175,8 +172,6 @@ def classify(diags, c):
             keys.add("server-binary-body-type-mismatch")
         elif c["mode"] == "server-mod" and opt_raw_body and code == "E0277" and "Handler<" in msg:
             keys.add("server-optional-raw-body-extractor")
-        elif code == "E0277" and re.search(r"the trait bound `[\w:]+: serde::(Serialize|Deserialize<'de>)` is not satisfied", msg) and "required for `HashMap<String, " in ren:
-            keys.add("serde-usage-misses-map-values")
         else:
             return None
     return keys
